@@ -1051,4 +1051,45 @@ theorem multi_gate_is_generated_held (n : Nat) (ops : List FwdMulti.MOp) (i : Na
 example : RaaBlockGen.held (RaaBlock.registerAll [0, 2]) 1 = true := by decide
 example : RaaBlockGen.held (RaaBlock.registerAll []) 1 = false := by decide
 
+/-- `FreeDuplicateClaimImmediately` (a claim replayed at startup re-added a blocker that the pending claim already holds): the
+    GENERATED stateful retain removes exactly ONE copy of the blocker from exactly that channel (`List.erase`), for every map. -/
+theorem raa_duplicate_release_removes_exactly_one_copy (m : RaaBlock.BlockMap) (chan blocker c : Nat) :
+    RaaBlock.BlockMap.get (RaaBlockGen.releaseDuplicate m chan blocker) c
+      = if c = chan then (RaaBlock.BlockMap.get m chan).erase blocker else RaaBlock.BlockMap.get m c :=
+  RaaBlock.get_releaseDuplicate m chan blocker c
+
+/-- ... hence a blocker that is registered twice (original claim + duplicate) still holds the channel after the duplicate's release. -/
+theorem raa_duplicate_release_keeps_channel_held (m : RaaBlock.BlockMap) (chan blocker : Nat) :
+    RaaBlockGen.held (RaaBlockGen.releaseDuplicate (RaaBlockGen.registerOnClaim (RaaBlockGen.registerOnFulfil m chan blocker) chan blocker) chan blocker) chan = true := by
+  rw [RaaBlock.held_iff]
+  refine ⟨blocker, ?_⟩
+  rw [RaaBlock.get_releaseDuplicate, if_pos rfl]
+  have h1 : blocker ∈ RaaBlock.BlockMap.get (RaaBlockGen.registerOnFulfil m chan blocker) chan :=
+    (RaaBlock.mem_get_registerOnFulfil m chan blocker chan blocker).mpr (Or.inl ⟨rfl, rfl⟩)
+  -- registerOnClaim is the same generated chain as registerOnFulfil
+  have h2 : ∀ m', RaaBlockGen.registerOnClaim m' chan blocker = RaaBlockGen.registerOnFulfil m' chan blocker := fun _ => rfl
+  rw [h2]
+  have hc : 2 ≤ List.count blocker (RaaBlock.BlockMap.get (RaaBlockGen.registerOnFulfil (RaaBlockGen.registerOnFulfil m chan blocker) chan blocker) chan) := by
+    have hget : ∀ m', RaaBlock.BlockMap.get (RaaBlockGen.registerOnFulfil m' chan blocker) chan = RaaBlock.BlockMap.get m' chan ++ [blocker] := by
+      intro m'
+      unfold RaaBlockGen.registerOnFulfil RaaBlock.BlockMap.pushAt RaaBlock.BlockMap.orInsertWith RaaBlock.BlockMap.get
+      cases h : m' chan <;> simp [RaaBlock.BlockMap.set, h]
+    rw [hget, hget]
+    simp [List.count_append]
+  have : 0 < List.count blocker ((RaaBlock.BlockMap.get (RaaBlockGen.registerOnFulfil (RaaBlockGen.registerOnFulfil m chan blocker) chan blocker) chan).erase blocker) := by
+    rw [List.count_erase_self]; omega
+  exact List.count_pos_iff.mp this
+
+example : RaaBlock.BlockMap.get (RaaBlockGen.releaseDuplicate (RaaBlock.registerAll [7, 5, 7]) 1 7) 1 = [5, 7] := by decide
+
+/-- The full `raa_monitor_updates_held` (both disjuncts GENERATED): the downstream `revoke_and_ack` update is held exactly when a
+    blocker is registered for the channel or an unhandled event carries `ReleaseRAAChannelMonitorUpdate` for this very channel and peer. -/
+theorem raa_held_full_iff (m : RaaBlock.BlockMap) (evs : List (Option (Nat × Nat))) (chan cp : Nat) :
+    (RaaBlockGen.held m chan || RaaBlockGen.heldByEvents evs chan cp) = true
+      ↔ (∃ b, b ∈ RaaBlock.BlockMap.get m chan) ∨ some (chan, cp) ∈ evs := by
+  rw [Bool.or_eq_true, RaaBlock.held_iff, RaaBlock.heldByEvents_iff]
+
+example : RaaBlockGen.heldByEvents [none, some (1, 9)] 1 9 = true := by decide
+example : RaaBlockGen.heldByEvents [none, some (1, 9)] 1 8 = false := by decide
+
 end Ldk.C02
